@@ -187,6 +187,7 @@ func runSeq(sc SeqCase) (seqInfo, error) {
 		default:
 			return info, fmt.Errorf("unknown op %q", st.Op)
 		}
+		runNoise(st.Tile, i) // unrelated calls between the steps (class D), only when the tile asks for them
 	}
 
 	retainedLayers := func(phase string) error {
@@ -307,6 +308,9 @@ func genSeq(t *rapid.T) SeqCase {
 			tile = genCase(t)
 		}
 		tile.Gzip = false
+		if tile.Noise != 0 {
+			stats.Class("seq:noise calls after a step")
+		}
 		sc.Steps = append(sc.Steps, Step{Op: op, Tile: tile})
 	}
 	return sc
@@ -314,7 +318,7 @@ func genSeq(t *rapid.T) SeqCase {
 
 func TestPropSequence(t *testing.T) {
 	stats.Assume("sequences: 2..5 calls on one goroutine mixing Marshal / MarshalGzipped / Unmarshal / UnmarshalGzipped on tiles of varying size; every returned []byte and Layers value is retained uncopied and checked after the last call (bytes equal their snapshot and decode to their model, decoded layers equal their model, marshal inputs unchanged, decoder inputs overwritten by the caller after the call); calls from several goroutines are not generated")
-	stats.Check(t, 6000, 200000, func(rt *rapid.T) {
+	stats.Check(t, 5000, 150000, func(rt *rapid.T) {
 		sc := genSeq(rt)
 		var info seqInfo
 		stats.Try(rt, seqTest, sc, func() error {
